@@ -5,11 +5,15 @@ package gzip
 import (
 	"bufio"
 	"bytes"
+	stdflate "compress/flate"
 	stdgzip "compress/gzip"
+	stdzlib "compress/zlib"
 	"hash/crc32"
 	"io"
 	"time"
 
+	"github.com/intel/fastgo/compress/flate"
+	"github.com/intel/fastgo/compress/zlib"
 	"github.com/intel/fastgo/internal/verifrt"
 )
 
@@ -487,4 +491,29 @@ func VerifGzWrFail() {
 			verifrt.Assert(err == fault, "C14:gzip-failure-not-reported")
 		}
 	}
+}
+
+// VerifCtorLevels (C16): the constructors that mirror the standard library
+// accept and reject exactly the levels it does (level symbolic, case-split).
+func VerifCtorLevels() {
+	lv := int(int8(verifrt.U8()))
+	verifrt.Assume(lv >= -6 && lv <= 13)
+	lv = verifrt.Concretize(lv)
+	var s1, s2 vgSink
+	_, e1 := NewWriterLevel(&s1, lv)
+	_, e2 := stdgzip.NewWriterLevel(&s2, lv)
+	verifrt.Assert((e1 == nil) == (e2 == nil), "C16:gzip-level-accept")
+	_, e3 := flate.NewWriter(&s1, lv)
+	_, e4 := stdflate.NewWriter(&s2, lv)
+	verifrt.Assert((e3 == nil) == (e4 == nil), "C16:flate-level-accept")
+	_, e5 := flate.NewWriterDict(&s1, lv, []byte("abc"))
+	_, e6 := stdflate.NewWriterDict(&s2, lv, []byte("abc"))
+	verifrt.Assert((e5 == nil) == (e6 == nil), "C16:flate-dict-level-accept")
+	_, e7 := zlib.NewWriterLevel(&s1, lv)
+	_, e8 := stdzlib.NewWriterLevel(&s2, lv)
+	verifrt.Assert((e7 == nil) == (e8 == nil), "C16:zlib-level-accept")
+	_, e9 := zlib.NewWriterLevelDict(&s1, lv, []byte("abc"))
+	_, e10 := stdzlib.NewWriterLevelDict(&s2, lv, []byte("abc"))
+	verifrt.Assert((e9 == nil) == (e10 == nil), "C16:zlib-dict-level-accept")
+	verifrt.Cover("ran")
 }
